@@ -1,5 +1,5 @@
 """Combo tables of `RankPair::into_iter` (shared by C05, C12, C10)."""
-from sa import idioms as I, loops as L, prov as P
+from sa import dtree, idioms as I, loops as L, prov as P
 from sa.report import Unrecognised
 
 RANK_PAIR = "hand_range::rank_pair::RankPair"
@@ -29,7 +29,8 @@ def extract(F):
                 if on[0] == "discr" and P.strip(on[1]) == ("param", 1) and lab != "otherwise":
                     arm = I.variant_by_discr(F, RANK_PAIR, lab)
         if arm is None:
-            sel = selected_table_form(F, fn, pr, fl, bi, t) or selected_predicate_form(F, fn, pr, fl, bi, t)
+            sel = selected_table_form(F, fn, pr, fl, bi, t) or selected_predicate_form(F, fn, pr, fl, bi, t) or \
+                variant_comprehension(F, fn, pr, fl, bi, t)
             if sel is None:
                 raise Unrecognised("combos", "a CardPair::new call is not inside a variant arm", fn.path, fn.line)
             for v_, combos_ in sel.items():
@@ -292,6 +293,140 @@ def selected_predicate_form(F, fn, pr, fl, bi, t):
                 if _REL[n[0]](pos[par[px[0]]], pos[par[px[1]]]):
                     combos.append(tuple((ranks[k], env[cards[k][1]]) for k in range(2)))
         out[arm] = combos
+    return out
+
+
+def variant_comprehension(F, fn, pr, fl, bi, t):
+    """one shared `for a in ALL { for b in ALL { if <membership> { v.push(CardPair::new(Card::new(high, a), Card::new(kicker, b))) } } }`
+    where high, kicker and the membership test depend on the variant of self in any way (a tuple picked by a `match` before the
+    loops, a `match self` inside them, a comparison closure selected per variant): for each variant the function is read with
+    the switches on self's discriminant fixed to that variant, and one iteration of the inner loop is folded for each of the
+    16 suit pairs (branch conditions must be == != < <= > >= between the two loop suits, Suit's derived order) to see whether it
+    pushes.  {variant: combos in push order}, else None"""
+    card_new = CARD + "::new"
+    suit_adt = CARD.rsplit("::", 2)[0] + "::suit::Suit"
+    loops = sorted([lp for lp in fl if bi in lp.body], key=lambda lp: -len(lp.body))
+    if len(loops) != 2 or not all(_all_suits_domain(F, fn, lp) for lp in loops):
+        return None
+    outer, inner = loops
+    if inner.header not in outer.body or not L.in_every_iteration(fn, outer, inner.header):
+        return None
+    from rules import runpass
+    if runpass.early_exits(fn, inner) or runpass.early_exits(fn, outer):
+        return None
+    items = [P.strip(outer.item_term), P.strip(inner.item_term)]
+    if items[0] == items[1]:
+        return None
+    a_s = F.adts.get(suit_adt)
+    if a_s is None or not all(any(im["trait"] == tr and im.get("derived") for im in a_s["impls"]) for tr in ("std::cmp::PartialEq", "std::cmp::PartialOrd")):
+        return None
+    pos = {v["name"]: v["discr"] for v in a_s["variants"]}
+    sw_inner = fn.blocks[inner.next_block]["term"]["to"]
+    entry = [tgt for lab, tgt in fn.cfg.succ_edges[sw_inner] if tgt in inner.body and tgt != inner.header]
+    if len(entry) != 1:
+        return None
+    entry = entry[0]
+    rets = [P.strip(a, calls=False) for a in P.alts(pr.local(0))]
+    out = {}
+    for var in F.adts[RANK_PAIR]["variants"]:
+        V, want = var["name"], var["discr"]
+        removed = []
+        for b2 in sorted(fn.cfg.reachable):
+            t2 = fn.blocks[b2]["term"]
+            if t2["k"] != "switch":
+                continue
+            on = P.strip(pr.operand(t2["on"]))
+            if on[0] == "discr" and P.strip(on[1]) == ("param", 1):
+                labs = [l for l, _ in fn.cfg.succ_edges[b2]]
+                keep = want if want in labs else "otherwise"
+                removed += [(b2, l) for l in labs if l != keep]
+        if not removed:
+            return None
+        reach = I.reachable_avoiding(fn, removed)
+        if bi not in reach:
+            return None
+
+        class _Pth:
+            blocks = sorted(reach)
+        rp = dtree.PathProv(fn, _Pth)
+        cards = []
+        for a in t["args"]:
+            c = P.strip(rp.operand(a))
+            if not (c[0] == "call" and c[1] == card_new and len(c[2]) == 2):
+                return None
+            su, rk = P.strip(c[2][1]), P.strip(c[2][0])
+            if su not in items:
+                return None
+            if not (rk[0] == "field" and rk[1][0] == "variant" and P.strip(rk[1][1]) == ("param", 1) and rk[1][2] == V):
+                return None
+            cards.append((rk[2], items.index(su)))
+        call_t = rp.call_term(t, bi)
+        try:
+            paths = dtree.region_paths(fn, entry, {inner.header}, removed)
+        except dtree.Unanalysable:
+            return None
+        folded = []      # (predicates [(op, i, j)], pushes the combo?)
+        for p_ in paths:
+            if p_.end != "stop":
+                return None
+            preds = []
+            for (b_, _t, lab, ty, others) in p_.conds:
+                on = P.strip(rp.operand(fn.blocks[b_]["term"]["on"]), calls=False)
+                if on[0] == "discr" and P.strip(on[1]) == ("param", 1):
+                    continue
+                if ty != "bool":
+                    return None
+                truth = (others == [0]) if lab == "otherwise" else bool(lab)
+                if on[0] == "call" and on[1] == "<indirect>" and len(on[2]) == 2:
+                    callee = fn.blocks[on[3]]["term"]["callee"].get("indirect")
+                    pt = P.strip(rp.operand(callee)) if callee else ("?",)
+                    while pt[0] == "cast" and pt[1] == "PointerCoercion":
+                        pt = P.strip(pt[2])
+                    if pt[0] == "agg" and pt[1].startswith("closure:") and not pt[2]:
+                        g, first = F.fns.get(pt[1][len("closure:"):]), 2
+                    elif pt[0] == "fn":
+                        g, first = F.fns.get(pt[1]), 1
+                    else:
+                        return None
+                    if g is None or g.cfg.has_loops() or any(b3["term"]["k"] == "switch" for i3, b3 in enumerate(g.blocks) if i3 in g.cfg.reachable):
+                        return None
+                    n = I.norm_rel(P.strip(P.Prov(g).local(0), calls=False), truth)
+                    if n is None or n[0] not in _REL:
+                        return None
+                    par = {("param", first): P.strip(on[2][0]), ("param", first + 1): P.strip(on[2][1])}
+                    x, y = par.get(P.strip(n[1])), par.get(P.strip(n[2]))
+                else:
+                    n = I.norm_rel(on, truth)
+                    if n is None or n[0] not in _REL:
+                        return None
+                    x, y = P.strip(n[1]), P.strip(n[2])
+                if x not in items or y not in items:
+                    return None
+                preds.append((n[0], items.index(x), items.index(y)))
+            pushes = [b_ for b_ in p_.blocks if fn.blocks[b_]["term"]["k"] == "call" and fn.blocks[b_]["term"]["callee"].get("name") == "push"]
+            if bi in p_.blocks:
+                if len(pushes) != 1 or len(fn.blocks[pushes[0]]["term"]["args"]) != 2 or \
+                        P.strip(rp.operand(fn.blocks[pushes[0]]["term"]["args"][1]), calls=False) != call_t:
+                    return None
+                vec = P.strip(rp.operand(fn.blocks[pushes[0]]["term"]["args"][0]), calls=False)
+                rets_v = [P.strip(a, calls=False) for a in P.alts(rp.local(0))]
+                if not any(r[0] == "call" and r[1].rsplit("::", 1)[-1] == "into_iter" and r[2] and
+                           any(P.strip(x_, calls=False) == vec for x_ in P.alts(P.strip(r[2][0], calls=False))) for r in rets_v):
+                    return None
+            elif pushes:
+                return None
+            folded.append((preds, bi in p_.blocks))
+        combos = []
+        for a_ in SUITS:
+            for b_ in SUITS:
+                env = (pos[a_], pos[b_])
+                sat = [pushes_ for preds, pushes_ in folded if all(_REL[op](env[i], env[j]) for op, i, j in preds)]
+                if len(sat) != 1:
+                    return None
+                if sat[0]:
+                    suit_of = (a_, b_)
+                    combos.append(tuple((k, suit_of[li]) for k, li in cards))
+        out[V] = combos
     return out
 
 
